@@ -59,6 +59,8 @@ def strict_loads(line):
 
 
 class Run:
+    started = 0
+
     def __init__(self, binary, workdir, nsrc=1, window=150, args=(), serve=False, reference="43.6,1.36", tag="run"):
         self.binary, self.workdir, self.nsrc, self.window = binary, workdir, nsrc, window
         os.makedirs(workdir, exist_ok=True)
@@ -86,6 +88,14 @@ class Run:
         env["XDG_CACHE_HOME"] = self.cache
         env["RUST_BACKTRACE"] = "0"
         env.pop("JET1090_VERIF", None)
+        env.pop("RUST_LOG", None)
+        # every second run is a user who asked for full logs (RUST_LOG=trace into a log file): every log statement of
+        # the executable and of the library is then enabled and its arguments are evaluated
+        Run.started += 1
+        self.verbose = (Run.started + os.getpid()) % 2 == 0 and "--log-file" not in args
+        if self.verbose:
+            env["RUST_LOG"] = "trace"
+            cmd[1:1] = ["--log-file", os.path.join(workdir, f"{tag}.{os.getpid()}.log")]
         self.cmd = cmd
         self.out = open(self.out_path, "wb")
         self.err = open(self.err_path, "wb")
@@ -156,7 +166,8 @@ class Run:
         self.err.close()
         code = self.proc.returncode
         err = self.stderr()
-        for p in (self.out_path, self.err_path):
+        logs = [os.path.join(self.workdir, f) for f in os.listdir(self.workdir) if f.endswith(f".{os.getpid()}.log")] if os.path.isdir(self.workdir) else []
+        for p in [self.out_path, self.err_path] + logs:
             try:
                 os.unlink(p)
             except OSError:
